@@ -10,6 +10,8 @@ package verifspec
 import (
 	"math"
 	"reflect"
+	"runtime"
+	"strings"
 	"unicode/utf8"
 )
 
@@ -115,4 +117,15 @@ func Same(a, b any) bool {
 		return va.Len() == vb.Len() && va.Pointer() == vb.Pointer()
 	}
 	return reflect.DeepEqual(a, b)
+}
+
+// RepoFn reports whether f is a function (or closure) defined in this repository,
+// as opposed to one supplied by a user of the library.
+func RepoFn(f any) bool {
+	v := reflect.ValueOf(f)
+	if v.Kind() != reflect.Func || v.IsNil() {
+		return false
+	}
+	fn := runtime.FuncForPC(v.Pointer())
+	return fn != nil && strings.HasPrefix(fn.Name(), "github.com/grindlemire/go-lucene/")
 }
